@@ -52,6 +52,7 @@ class Job:
     termination_is_property: bool = False   # failed unwinding assertion counts as violation
     min_witnesses: int = 1
     cost: int = 1                  # scheduling weight (expensive first)
+    solver: str = "cadical"        # cbmc --sat-solver (minisat2 | cadical)
 
 
 def load_jobs(pid: str, tier: str) -> List[Job]:
@@ -138,6 +139,8 @@ def cbmc_cmd(job: Job, gb: str, extra=()):
         cmd += ["--unwindset", ",".join(job.unwindset)]
     if job.checks == "assert":
         cmd += ["--no-standard-checks"]
+    if job.solver and job.solver != "minisat2":
+        cmd += ["--sat-solver", job.solver]
     cmd += list(job.extra) + list(extra)
     return cmd
 
